@@ -1140,17 +1140,30 @@ pub fn execute(sc: &NScenario, sh: &Shared) -> Value {
                 if faddr != taddr {
                     let r = in_fork(move || unsafe {
                         let mut inj = InjectorPP::new();
-                        inj.when_called(FuncPtr::new(taddr as *const (), "fn() -> u32")).will_execute_raw(FuncPtr::new(faddr as *const (), "fn() -> u32"));
+                        // a crowded neighbourhood may leave no room for the trampoline: a refusal is a panic
+                        let refused = catch_unwind(AssertUnwindSafe(|| {
+                            inj.when_called(FuncPtr::new(taddr as *const (), "fn() -> u32")).will_execute_raw(FuncPtr::new(faddr as *const (), "fn() -> u32"));
+                        }))
+                        .is_err();
                         let v1 = arena::call_u32(taddr) as u64;
                         drop(inj);
                         let v2 = arena::call_u32(taddr) as u64;
-                        (v1 << 32) | v2
+                        ((refused as u64) << 63) | (v1 << 32) | v2
                     });
                     run.probe("injector_lifetime_in_a_forked_child");
                     match r {
                         Ok(v) => {
-                            let (v1, v2) = ((v >> 32) as u32, v as u32);
-                            if v1 != fid || v2 != orig {
+                            let refused = v >> 63 == 1;
+                            let (v1, v2) = (((v >> 32) & 0x7fff_ffff) as u32, v as u32);
+                            if refused {
+                                run.probe("forked_child_installation_refused");
+                                if sc.reserves.is_empty() {
+                                    run.v("well-formed-installation-refused", &["C01"], format!("lifetime {li}: in a forked child the installation on target #{ti} panicked although the neighbourhood has room"));
+                                }
+                                if v1 != orig || v2 != orig {
+                                    run.v("refused-install-left-traces", &["C05", "C03"], format!("lifetime {li}: in a forked child the installation on target #{ti} at {taddr:#x} was refused, yet the function returned {v1:#x} then {v2:#x} (the original gives {orig:#x})"));
+                                }
+                            } else if v1 != fid || v2 != orig {
                                 run.v("forked-child-lifetime-misbehaves", &["C01", "C02", "C03", "C10"], format!("lifetime {li}: in a forked child, target #{ti} at {taddr:#x} returned {v1:#x} while faked (the fake gives {fid:#x}) and {v2:#x} after its injector went (the original gives {orig:#x})"));
                             }
                         }
